@@ -23,11 +23,20 @@ def inject(d, verif, module_file, modname):
         f.write('\n#[cfg(test)]\n#[path = "%s"]\nmod %s;\n' % (os.path.join(verif, "replay", module_file), modname))
 
 
-def cargo_env(verif, extra=None):
+OVF_ENV = {"CARGO_PROFILE_RELEASE_OVERFLOW_CHECKS": "true"}
+OVF_TARGET = ".cache/replay-target-ovf"
+
+
+def cargo_env(verif, extra=None, P=None):
     env = dict(os.environ)
     env["CARGO_NET_OFFLINE"] = "true"
     env["CARGO_TARGET_DIR"] = os.path.join(verif, CACHE_TARGET)
     env.setdefault("RUST_LOG", "off")
+    if P and P.get("replay_overflow_checks"):
+        # the replay is built optimised but WITH arithmetic overflow checks (the semantics of `cargo test` / debug builds):
+        # an operation that overflows aborts the case, which is then reported as a witness
+        env.update(OVF_ENV)
+        env["CARGO_TARGET_DIR"] = os.path.join(verif, OVF_TARGET)
     if extra:
         env.update(extra)
     return env
@@ -48,7 +57,7 @@ def run_module(pid, P, repo, verif, mode, seed, tier, inp=None, timeout=None):
         with open(inp_path, "w") as f:
             json.dump(inp if inp is not None else {}, f)
         env = cargo_env(verif, dict(VERIF_REPLAY_MODE=mode, VERIF_REPLAY_OUT=outp, VERIF_REPLAY_IN=inp_path,
-                                    VERIF_SEED=str(seed), VERIF_TIER=tier))
+                                    VERIF_SEED=str(seed), VERIF_TIER=tier), P)
         cmd = ["cargo", "test", "--offline", "--lib", "--release", "verif_replay::", "--", "--nocapture", "--test-threads=1"]
         t0 = time.time()
         try:
@@ -79,6 +88,9 @@ def run_module(pid, P, repo, verif, mode, seed, tier, inp=None, timeout=None):
             # a crash of the real code (abort / hang) is itself a witness when the module says which case was running
             res["note"] = "witness module produced no output: " + tail[-600:]
             prog = os.path.join(d, "verif_replay_progress.json")
+            if not os.path.exists(prog):
+                # neither a result nor a progress file: the module did not build or did not start -- the search did NOT run
+                res["module_error"] = True
             if os.path.exists(prog):
                 try:
                     pr = json.load(open(prog))
@@ -130,11 +142,12 @@ def warm(repo, verif):
     """build the test profile once so that later witness searches only recompile the crate itself"""
     d = scratch_copy(repo, "warm")
     try:
-        env = cargo_env(verif)
-        p = subprocess.run(["cargo", "test", "--offline", "--lib", "--release", "--no-run"], cwd=d, env=env, capture_output=True, text=True, timeout=3000)
-        if p.returncode != 0:
-            print(p.stderr[-2000:])
-            return 1
+        for P in (None, dict(replay_overflow_checks=True)):
+            env = cargo_env(verif, None, P)
+            p = subprocess.run(["cargo", "test", "--offline", "--lib", "--release", "--no-run"], cwd=d, env=env, capture_output=True, text=True, timeout=3000)
+            if p.returncode != 0:
+                print(p.stderr[-2000:])
+                return 1
         return 0
     finally:
         shutil.rmtree(d, ignore_errors=True)
